@@ -568,7 +568,10 @@ func Run(r *common.Run) error {
 	}
 
 	// exhaustive: incoming element shapes x single writes / pairs of writes x modes
-	locals := []struct{ local, ns string }{{"iq", ""}, {"message", ""}, {"presence", ""}, {"iq", "urn:other"}, {"x", "urn:x"}}
+	// {"iq", ""} is an iq in the stream's own namespace; the next two are iqs explicitly
+	// qualified with jabber:client / jabber:server, one of which is the OTHER stanza
+	// namespace than the stream's
+	locals := []struct{ local, ns string }{{"iq", ""}, {"iq", c08.NSClient}, {"iq", c08.NSServer}, {"message", ""}, {"presence", ""}, {"iq", "urn:other"}, {"x", "urn:x"}}
 	types := []string{"get", "set", "result", "error", "-", "foo"}
 	froms := []string{"-", "a@example.org/r", "OWN"}
 	nsList := []string{c08.NSClient}
@@ -618,7 +621,23 @@ func Run(r *common.Run) error {
 			}
 		}
 	}
-	r.Exhaustive = append(r.Exhaustive, fmt.Sprintf("incoming element (5 names x 6 types x 3 from values x %d payload shapes) x every single handler write out of %d x 3 modes; every ordered pair of writes for get/set requests", len(payloads), len(writeNames)))
+	// handlers that return an error value after writing 0 / 1 / 2 replies: plain error,
+	// io.EOF, stanza.Error, stream.Error; direct and behind the mux (registered), for every
+	// IQ type
+	for _, ns := range []string{c08.NSClient, c08.NSServer} {
+		for _, typ := range []string{"get", "set", "result", "error"} {
+			e := element("iq", "", "er", typ, "a@example.org/r", "-", "", payloads[0])
+			for _, ret := range []string{"ok", "fail", "eof", "stanzaerr", "streamerr"} {
+				for _, ws := range [][]string{nil, {"result"}, {"error"}, {"result", "result"}, {"otherid"}, {"message", "result"}} {
+					for _, m := range []string{"d", "r"} {
+						c.check(ns, m, e, progOf(ws, "er", len(ws)%3, ret), "exhaustive-returns")
+					}
+				}
+				c.check(ns, "u", e, progOf(nil, "er", 0, ret), "exhaustive-returns")
+			}
+		}
+	}
+	r.Exhaustive = append(r.Exhaustive, fmt.Sprintf("incoming element (7 names incl. both stanza namespaces x 6 types x 3 from values x %d payload shapes) x every single handler write out of %d x 3 modes; every ordered pair of writes for get/set requests", len(payloads), len(writeNames)))
 
 	// several elements in one session: requests with distinct (and sometimes equal) ids,
 	// replies, other stanzas; handlers that answer their own request, an earlier or a later one
@@ -704,7 +723,7 @@ func Run(r *common.Run) error {
 		}
 		ret := "ok"
 		if rnd.Chance(1, 12) {
-			ret = []string{"fail", "eof"}[rnd.Intn(2)]
+			ret = []string{"fail", "eof", "stanzaerr", "streamerr"}[rnd.Intn(4)]
 		}
 		wid := id
 		if wid == "-" {
